@@ -122,7 +122,10 @@ fn live_main(a: &[String]) {
                 may::verif::pop_actor();
                 match r {
                     Ok(f) => f,
-                    Err(_) => vec!["scenario main panicked".to_string()],
+                    Err(e) => {
+                        let msg = e.downcast_ref::<String>().cloned().or_else(|| e.downcast_ref::<&str>().map(|s| s.to_string())).unwrap_or_else(|| "(non-string payload)".into());
+                        vec![format!("scenario main panicked: {}", msg.chars().take(300).collect::<String>())]
+                    }
                 }
             })
             .unwrap();
